@@ -491,9 +491,10 @@ func emitPrincipalProps(o *Out, r *RNG) {
 			}
 			pr := parseResponseNode(c)
 			for _, it := range pr.stats[200] {
-				// the value is flattened as {DAV:}href(<text>)
-				if i, j := strings.Index(it[2], "("), strings.LastIndex(it[2], ")"); i >= 0 && j > i {
-					it[2] = it[2][i+1 : j]
+				// the value is flattened as {DAV:}href(<text>): the href child is DAV:'s, whatever namespace the property
+				// itself belongs to (anything else stays as it is and is not the path)
+				if v := strings.TrimSpace(it[2]); strings.HasPrefix(v, "{DAV:}href(") && strings.HasSuffix(v, ")") {
+					it[2] = v[len("{DAV:}href(") : len(v)-1]
 				}
 				switch it[1] {
 				case "calendar-home-set":
